@@ -189,6 +189,13 @@ def autotrust_test(ctx, m, cls, fn, test_expr, autotrust_params):
         want = alts(Evaluator(ctx.repo, ctx.repo.module(PROPS), None).ev(ast.Name(id="PROP_IDENTITY_AUTOTRUST", ctx=ast.Load())))
         dflt = alts(ev.ev(t.args[1])) if len(t.args) > 1 else [None]
         return bool(a and want and a == want and dflt is not None and not dflt[0])
+    if isinstance(t, ast.Call) and is_self_attr(t.func) and not t.args and not t.keywords and cls is not None:
+        # a wrapper of the switch: a method of the class that does nothing but return the switch
+        k, h = ctx.repo.find_method(cls, t.func.attr)
+        if h is not None:
+            body = [st for st in h.body if not (isinstance(st, ast.Expr) and isinstance(st.value, ast.Constant))]
+            if len(body) == 1 and isinstance(body[0], ast.Return) and body[0].value is not None:
+                return autotrust_test(ctx, k.module, k, h, body[0].value, ())
     return False
 
 
